@@ -547,6 +547,10 @@ def run_property(prop, tier, out):
         # charged with this property's clauses only
         import relay
         extra = relay.run_relay(prop, tier, out, binary)
+        if prop == "C03":
+            # ... and the repository's own relay application (rln-cli example), unmodified, validated against the same design
+            import relaycli
+            extra.update(relaycli.run_cli(prop, tier, out))
     out.add(**extra)
     out.add(evaluations=len(judged), distinct_nontrivial=len(distinct), traces_validated_against_impl=1 if not res["dev"] else 0,
             proofs_generated=sum(1 for r in rows if r["t"] == "prove" and r.get("res") == "ok" and r.get("entry") != "values"),
